@@ -520,9 +520,23 @@ theorem store_int_outside (T : ColT) (hT : intFamily T) (i : Int) (h : int64 i =
     store (aff T) (reprInt i) = some (.real (.ofInt i)) := by
   simp [store, evalLit_reprInt, h, aff_intFamily T hT, applyAff]
 
-theorem readBack_fk (i : Int) (h : int64 i = true) : readBack .fkInt (.int i) = .ok (.int i) := by
-  have hrt := roundtrip_int .fkInt i (Or.inl (by decide)) h
-  simp [readBack, Res.bind, toDb, toPy, fkFromPython, hrt]
+/-- ForeignKey to a class with int ids, declared in a class with int ids (`fkInt`) or str ids (`fkIntS`):
+    the column type is the extracted `key_type` of the REFERENCED class's idType -/
+def fkToInt (T : ColT) : Prop := T = .fkInt ∨ T = .fkIntS
+
+theorem aff_fkToInt (T : ColT) (hT : fkToInt T) : aff T = .integer := by
+  rcases hT with rfl | rfl <;> decide
+
+theorem readBack_fk (T : ColT) (hT : fkToInt T) (i : Int) (h : int64 i = true) :
+    readBack T (.int i) = .ok (.int i) := by
+  have hrt := roundtrip_int T i (Or.inl (aff_fkToInt T hT)) h
+  rcases hT with rfl | rfl <;> simp [readBack, Res.bind, toDb, toPy, fkFromPython, hrt]
+
+theorem aff_fkStr : aff .fkStr = .text := by decide
+
+/-- ForeignKey to a class with str ids: any NUL-free id text ('007', '1e3', ' 5', …) stays that text -/
+theorem readBack_fkStr (s : Str) (h0 : 0 ∉ s) : readBack .fkStr (.str s) = .ok (.str s) := by
+  simp [readBack, Res.bind, toDb, toPy, fkStrFromPython, roundtrip_text .fkStr s aff_fkStr h0]
 
 theorem readBack_bool (b : Bool) : readBack .bool (.bool b) = .ok (.bool b) := by
   have ha : aff .bool = .numeric := by decide
@@ -534,7 +548,7 @@ theorem readBack_none (T : ColT) : readBack T .none = .ok .none := by
   have hrt : roundtrip T .none = .ok .none := by
     simp [roundtrip, lit, evalLit, Extracted.nullLit, applyAff, fetch]
   cases T <;> simp [readBack, Res.bind, toDb, toPy, hrt, stringV, unicodeV, intV, boolV, floatV, dtFromPython,
-    dtToPython, dateToPython, timeToPython, enumV, binFromPython, binToPython, fkFromPython]
+    dtToPython, dateToPython, timeToPython, enumV, binFromPython, binToPython, fkFromPython, fkStrFromPython]
 
 theorem b64_idx_chr : ∀ i, i < 64 → b64idx (b64chr i) = some i := by decide
 theorem b64_chr_ne_pad : ∀ i, i < 64 → b64chr i ≠ 61 := by decide
@@ -750,11 +764,12 @@ def wf : PyVal → Prop
   | .uuid t => 0 ∉ t
   | .json t => 0 ∉ t
   | .pickled b => ∀ x ∈ b, x < 256
+  | .sqlobjS id => 0 ∉ id
   | _ => True
 
 def isDateTimeT (T : ColT) : Bool := T == .dateTime || T == .timestamp
 def isIntLikeT (T : ColT) : Bool :=
-  T == .int || T == .tinyInt || T == .smallInt || T == .mediumInt || T == .bigInt || T == .fkInt
+  T == .int || T == .tinyInt || T == .smallInt || T == .mediumInt || T == .bigInt || T == .fkInt || T == .fkIntS
     || T == .decimal || T == .currency
 
 /-- (column, value) pairs the CURRENT code accepts and then cannot read back, or alters (each replayed on the
@@ -762,8 +777,8 @@ def isIntLikeT (T : ColT) : Bool :=
 def knownBad (T : ColT) (x : PyVal) : Bool :=
   match x with
   | .int i => (isIntLikeT T && !int64 i) || (T == .float && !exactInt i)
-  | .sqlobj id => T == .fkInt && !int64 id
-  | .str s => T == .fkInt && (match intText s with | some i => !int64 i | none => false)
+  | .sqlobj id => (T == .fkInt || T == .fkIntS) && !int64 id
+  | .str s => (T == .fkInt || T == .fkIntS) && (match intText s with | some i => !int64 i | none => false)
   | _ => false
 
 /-- pairs whose codec is an uninterpreted stdlib function, or a parser run on arbitrary text -/
@@ -987,32 +1002,47 @@ theorem accepted_json (x y : PyVal) (hw : wf x) (h : toDb .json x = .ok y) : Rea
   · rename_i t
     exact readable_of _ _ _ _ (.json t) (roundtrip_text _ _ ha hw) (by simp [toPy]) (norm_refl _ _)
 
-theorem accepted_fk (x y : PyVal) (hk : knownBad .fkInt x = false) (h : toDb .fkInt x = .ok y) :
-    Readable .fkInt x y := by
-  have ha : aff .fkInt = .integer := by decide
-  cases x <;> simp [toDb, fkFromPython] at h
-  · subst h; exact readable_of _ _ _ _ _ (roundtrip_none _) (by simp [toPy]) (norm_refl _ _)
+theorem accepted_fk (T : ColT) (hT : fkToInt T) (x y : PyVal) (hk : knownBad T x = false) (h : toDb T x = .ok y) :
+    Readable T x y := by
+  have ha : aff T = .integer := aff_fkToInt T hT
+  have hdb : toDb T x = fkFromPython x := by rcases hT with rfl | rfl <;> rfl
+  have hpy : ∀ r, toPy T r = .ok r := by intro r; rcases hT with rfl | rfl <;> rfl
+  have hTb : (T == ColT.fkInt || T == ColT.fkIntS) = true := by rcases hT with rfl | rfl <;> rfl
+  have hil : isIntLikeT T = true := by rcases hT with rfl | rfl <;> rfl
+  rw [hdb] at h
+  cases x <;> simp [fkFromPython] at h
+  · subst h; exact readable_of _ _ _ _ _ (roundtrip_none _) (hpy _) (norm_refl _ _)
   · rename_i b
     subst h
     exact readable_of _ _ _ _ (.int (if b then 1 else 0)) (roundtrip_int _ _ (Or.inl ha) (by cases b <;> decide))
-      (by simp [toPy]) (by cases b <;> simp [normalises, pyEq])
+      (hpy _) (by cases b <;> simp [normalises, pyEq])
   · rename_i i
     subst h
-    have h64 : int64 i = true := by simpa [knownBad, isIntLikeT] using hk
-    exact readable_of _ _ _ _ (.int i) (roundtrip_int _ _ (Or.inl ha) h64) (by simp [toPy]) (norm_refl _ _)
+    have h64 : int64 i = true := by simp [knownBad, hil] at hk; exact hk.1
+    exact readable_of _ _ _ _ (.int i) (roundtrip_int _ _ (Or.inl ha) h64) (hpy _) (norm_refl _ _)
   · rename_i s
     cases hi : intText s with
     | none => simp [hi] at h; split at h <;> simp at h
     | some i =>
       simp [hi] at h; subst h
-      have h64 : int64 i = true := by simpa [knownBad, hi] using hk
-      exact readable_of _ _ _ _ (.int i) (roundtrip_int _ _ (Or.inl ha) h64) (by simp [toPy])
-        (by simp [normalises, coerces, hi])
+      have h64 : int64 i = true := by simpa [knownBad, hi, hTb] using hk
+      exact readable_of _ _ _ _ (.int i) (roundtrip_int _ _ (Or.inl ha) h64) (hpy _)
+        (by rcases hT with rfl | rfl <;> simp [normalises, coerces, hi])
   · rename_i id
     subst h
-    have h64 : int64 id = true := by simpa [knownBad] using hk
-    have hr : roundtrip .fkInt (.sqlobj id) = .ok (.int id) := by
-      simp [roundtrip, lit, evalLit_reprInt, h64, ha, applyAff, fetch]
-    exact readable_of _ _ _ _ (.int id) hr (by simp [toPy]) (by simp [normalises, coerces])
+    have h64 : int64 id = true := by simpa [knownBad, hTb] using hk
+    exact readable_of _ _ _ _ (.int id) (roundtrip_int _ _ (Or.inl ha) h64) (hpy _)
+      (by rcases hT with rfl | rfl <;> simp [normalises, coerces])
+
+theorem accepted_fkStr (x y : PyVal) (hw : wf x) (h : toDb .fkStr x = .ok y) : Readable .fkStr x y := by
+  cases x <;> simp [toDb, fkStrFromPython] at h <;> subst h
+  · exact readable_of _ _ _ _ _ (roundtrip_none _) (by simp [toPy]) (norm_refl _ _)
+  · rename_i i
+    exact readable_of _ _ _ _ (.str (reprInt i)) (roundtrip_text _ _ aff_fkStr (zero_not_mem_reprInt i))
+      (by simp [toPy]) (by simp [normalises, coerces])
+  · rename_i s
+    exact readable_of _ _ _ _ (.str s) (roundtrip_text _ _ aff_fkStr hw) (by simp [toPy]) (norm_refl _ _)
+  · rename_i id
+    exact readable_of _ _ _ _ (.str id) (roundtrip_text _ _ aff_fkStr hw) (by simp [toPy]) (by simp [normalises, coerces])
 
 end SqlObjVerif.Codec
